@@ -6,6 +6,8 @@ import (
 	"go/token"
 	"go/types"
 	"strings"
+	"unicode"
+	"unicode/utf8"
 
 	"golang.org/x/tools/go/ssa"
 
@@ -102,10 +104,11 @@ func avalEqual(a, b *aval) (bool, bool) {
 
 // frame: one activation
 type ncFrame struct {
-	fn   *ssa.Function
-	args []*aval
-	prev *ssa.BasicBlock
-	vals map[ssa.Value]*aval
+	fn    *ssa.Function
+	args  []*aval
+	prev  *ssa.BasicBlock
+	vals  map[ssa.Value]*aval
+	iters map[*ssa.Range]int // position of string iterations
 }
 
 func (in *ncInterp) eval(fr *ncFrame, v ssa.Value, depth int) *aval {
@@ -128,6 +131,22 @@ func (in *ncInterp) isTagDerived(v ssa.Value) bool {
 			k := core.CalleeKey(&call.Call)
 			if k == "reflect.StructTag.Get" || k == "reflect.StructTag.Lookup" {
 				return true
+			}
+			// a package helper that reads the tag (func jsonTagName(f reflect.StructField) string)
+			if h := call.Call.StaticCallee(); h != nil && in.c.P.InPkg(h) {
+				found := false
+				for _, hf := range core.WithAnon(h) {
+					core.EachInstr(hf, func(j ssa.Instruction) {
+						if hc, ok := j.(*ssa.Call); ok {
+							if hk := core.CalleeKey(&hc.Call); hk == "reflect.StructTag.Get" || hk == "reflect.StructTag.Lookup" {
+								found = true
+							}
+						}
+					})
+				}
+				if found {
+					return true
+				}
 			}
 		}
 		if x == ssa.Value(in.lookup) {
@@ -173,6 +192,9 @@ func (in *ncInterp) eval1(fr *ncFrame, v ssa.Value, depth int) *aval {
 		key := core.CalleeKey(&x.Call)
 		if key == "builtin.len" && len(x.Call.Args) == 1 && sliceMentionsField(x.Call.Args[0], "Index") {
 			return &aval{k: constant.MakeInt64(in.dc)}
+		}
+		if r := in.pureLibCall(fr, key, x, depth); r != nil {
+			return r
 		}
 		callee := x.Call.StaticCallee()
 		if callee == nil || !in.c.P.InPkg(callee) || len(callee.Blocks) == 0 {
@@ -349,6 +371,29 @@ func (in *ncInterp) run(fn *ssa.Function, args []*aval, start *ssa.BasicBlock, f
 		if first {
 			idx, first = from, false
 		}
+		// on (re-)entering a block: the phis take the values of the edge just taken (in parallel), everything
+		// else computed in the block on an earlier visit is forgotten
+		if idx == 0 {
+			phis := map[ssa.Value]*aval{}
+			for _, ins := range cur.Instrs {
+				phi, ok := ins.(*ssa.Phi)
+				if !ok {
+					break
+				}
+				delete(fr.vals, phi)
+				phis[phi] = in.evalQuiet(fr, phi, 14)
+			}
+			for _, ins := range cur.Instrs {
+				if v, ok := ins.(ssa.Value); ok {
+					delete(fr.vals, v)
+				}
+			}
+			for k, v := range phis {
+				if v != nil {
+					fr.vals[k] = v
+				}
+			}
+		}
 		var next *ssa.BasicBlock
 		for _, ins := range cur.Instrs[idx:] {
 			in.observe(ins)
@@ -358,14 +403,44 @@ func (in *ncInterp) run(fn *ssa.Function, args []*aval, start *ssa.BasicBlock, f
 			switch x := ins.(type) {
 			case *ssa.Store:
 				in.store(fr, x)
+			case *ssa.Next:
+				// the iteration over a string: (ok, index, rune)
+				rg, ok := x.Iter.(*ssa.Range)
+				if !ok || !x.IsString {
+					break
+				}
+				sv := in.evalQuiet(fr, rg.X, 14)
+				if sv == nil || sv.k == nil || sv.k.Kind() != constant.String {
+					break
+				}
+				str := constant.StringVal(sv.k)
+				if fr.iters == nil {
+					fr.iters = map[*ssa.Range]int{}
+				}
+				pos := fr.iters[rg]
+				t := &aval{fields: map[int]*aval{}}
+				if pos >= len(str) {
+					t.fields[0] = &aval{k: constant.MakeBool(false)}
+					t.fields[1] = &aval{k: constant.MakeInt64(0)}
+					t.fields[2] = &aval{k: constant.MakeInt64(0)}
+				} else {
+					r, size := utf8.DecodeRuneInString(str[pos:])
+					t.fields[0] = &aval{k: constant.MakeBool(true)}
+					t.fields[1] = &aval{k: constant.MakeInt64(int64(pos))}
+					t.fields[2] = &aval{k: constant.MakeInt64(int64(r))}
+					fr.iters[rg] = pos + size
+				}
+				fr.vals[x] = t
+			case *ssa.Range:
+				if fr.iters != nil {
+					delete(fr.iters, x)
+				}
 			case *ssa.Call:
 				// calls executed for their effect (package helpers): enter them
 				if callee := x.Call.StaticCallee(); callee != nil && in.c.P.InPkg(callee) && len(callee.Blocks) > 0 {
 					if _, done := fr.vals[x]; !done {
-						in.eval(fr, x, 14)
-						if in.failed != "" {
-							return nil
-						}
+						// (a helper whose result cannot be computed fails the scenario only if the result is needed)
+						in.evalQuiet(fr, x, 14)
 					}
 				}
 			case *ssa.Return:
@@ -518,5 +593,224 @@ func ruleNameConflictScenarios(c *Ctx, rule string, inferFn *ssa.Function, enter
 			ok, why = false, "the holder wins, but its property is deleted"
 		}
 		c.R.Check(ok, rule, "forType:properties[name]:"+r.s.name, c.pos(at), "resolved as encoding/json resolves it", why+" (holder at depth "+fmt.Sprint(r.s.dp)+", newcomer at depth "+fmt.Sprint(r.s.dc)+")")
+	}
+}
+
+// pureLibCall evaluates a few pure standard-library predicates on concrete arguments.
+func (in *ncInterp) pureLibCall(fr *ncFrame, key string, x *ssa.Call, depth int) *aval {
+	argStr := func(i int) (string, bool) {
+		a := in.evalQuiet(fr, x.Call.Args[i], depth-1)
+		if a == nil || a.k == nil || a.k.Kind() != constant.String {
+			return "", false
+		}
+		return constant.StringVal(a.k), true
+	}
+	argRune := func(i int) (rune, bool) {
+		a := in.evalQuiet(fr, x.Call.Args[i], depth-1)
+		if a == nil || a.k == nil || a.k.Kind() != constant.Int {
+			return 0, false
+		}
+		n, ok := constant.Int64Val(a.k)
+		return rune(n), ok
+	}
+	b := func(v bool) *aval { return &aval{k: constant.MakeBool(v)} }
+	uni := map[string]func(rune) bool{"unicode.IsLetter": unicode.IsLetter, "unicode.IsDigit": unicode.IsDigit, "unicode.IsPunct": unicode.IsPunct,
+		"unicode.IsSymbol": unicode.IsSymbol, "unicode.IsSpace": unicode.IsSpace, "unicode.IsControl": unicode.IsControl, "unicode.IsNumber": unicode.IsNumber,
+		"unicode.IsUpper": unicode.IsUpper, "unicode.IsLower": unicode.IsLower, "unicode.IsPrint": unicode.IsPrint, "unicode.IsGraphic": unicode.IsGraphic, "unicode.IsMark": unicode.IsMark}
+	if f, ok := uni[key]; ok && len(x.Call.Args) == 1 {
+		if r, ok := argRune(0); ok {
+			return b(f(r))
+		}
+		return nil
+	}
+	switch key {
+	case "strings.ContainsRune":
+		if s, ok := argStr(0); ok {
+			if r, ok := argRune(1); ok {
+				return b(strings.ContainsRune(s, r))
+			}
+		}
+	case "strings.IndexRune":
+		if s, ok := argStr(0); ok {
+			if r, ok := argRune(1); ok {
+				return &aval{k: constant.MakeInt64(int64(strings.IndexRune(s, r)))}
+			}
+		}
+	case "strings.ContainsAny":
+		if s, ok := argStr(0); ok {
+			if t, ok := argStr(1); ok {
+				return b(strings.ContainsAny(s, t))
+			}
+		}
+	case "strings.Contains":
+		if s, ok := argStr(0); ok {
+			if t, ok := argStr(1); ok {
+				return b(strings.Contains(s, t))
+			}
+		}
+	case "builtin.len":
+		if s, ok := argStr(0); ok {
+			return &aval{k: constant.MakeInt64(int64(len(s)))}
+		}
+	}
+	return nil
+}
+
+// evalStringPredicate evaluates the package predicate fn (func(string) bool) on a concrete string.
+func evalStringPredicate(c *Ctx, fn *ssa.Function, s string) (bool, string) {
+	in := &ncInterp{c: c, mem: map[ssa.Value]*aval{}}
+	r := in.run(fn, []*aval{{k: constant.MakeString(s)}}, nil, 0)
+	if in.failed != "" || r == nil || r.k == nil || r.k.Kind() != constant.Bool {
+		why := in.failed
+		if why == "" {
+			why = "no boolean result"
+		}
+		return false, why
+	}
+	return constant.BoolVal(r.k), ""
+}
+
+func init() {
+	for _, pid := range []string{"C04", "C09", "C16"} {
+		pid := pid
+		p := Properties[pid]
+		if p == nil {
+			continue
+		}
+		p.Rules = append(p.Rules, Rule{pid + "/tag-name-validity", func(c *Ctx) { ruleTagNameValidity(c, pid+"/tag-name-validity") }})
+	}
+}
+
+// encoding/json ignores the name part of a json tag that it does not consider valid (isValidTag: letters, digits
+// and the punctuation !#$%&()*+-./:;<=>?@[]^_{|}~ and space) and falls back to the Go field name. Inference must
+// do the same, or the inferred property has a name the encoding never has.
+//   - wherever the name part of a json tag is read in the inference closure, every use that lets it escape
+//     (a store, a return) is guarded by a package predicate applied to it;
+//   - that predicate is evaluated abstractly on a set of strings that separates the character classes of
+//     isValidTag, and must give isValidTag's answer on each.
+func ruleTagNameValidity(c *Ctx, rule string) {
+	isTagGet := func(v ssa.Value) bool {
+		for _, x := range backSlice(v, 40) {
+			if call, ok := x.(*ssa.Call); ok {
+				k := core.CalleeKey(&call.Call)
+				if (k == "reflect.StructTag.Get" || k == "reflect.StructTag.Lookup") && len(call.Call.Args) == 2 {
+					if s, ok := constString(call.Call.Args[1]); ok && s == "json" {
+						return true
+					}
+				}
+			}
+		}
+		return false
+	}
+	preds := map[*ssa.Function]bool{}
+	n := 0
+	for _, fn := range c.Closure(rule, "INF").Sorted() {
+		if !c.P.InPkg(fn) || len(fn.Blocks) == 0 {
+			continue
+		}
+		core.EachInstr(fn, func(i ssa.Instruction) {
+			cut, ok := i.(*ssa.Call)
+			if !ok || core.CalleeKey(&cut.Call) != "strings.Cut" || !isTagGet(cut.Call.Args[0]) || cut.Referrers() == nil {
+				return
+			}
+			if s, ok := constString(cut.Call.Args[1]); !ok || s != "," {
+				return
+			}
+			for _, r := range *cut.Referrers() {
+				name, ok := r.(*ssa.Extract)
+				if !ok || name.Index != 0 || name.Referrers() == nil {
+					continue
+				}
+				n++
+				// the predicate applied to the name
+				var tests []*ssa.Call
+				for _, u := range *name.Referrers() {
+					if pc, ok := u.(*ssa.Call); ok {
+						if callee := pc.Call.StaticCallee(); callee != nil && c.P.InPkg(callee) && len(callee.Params) == 1 && callee.Signature.Results().Len() == 1 && isBoolType(callee.Signature.Results().At(0).Type()) && tString(callee.Params[0].Type()) {
+							tests = append(tests, pc)
+							preds[callee] = true
+						}
+					}
+				}
+				var unguarded []string
+				for _, u := range *name.Referrers() {
+					escapes := false
+					switch x := u.(type) {
+					case *ssa.Store:
+						escapes = x.Val == ssa.Value(name)
+					case *ssa.Return:
+						escapes = true
+					case *ssa.MakeInterface, *ssa.MapUpdate, *ssa.Phi:
+						escapes = true
+					}
+					if !escapes {
+						continue
+					}
+					at := u
+					if phi, ok := u.(*ssa.Phi); ok {
+						// judged where the name flows into the merge
+						for k, e := range phi.Edges {
+							if e == ssa.Value(name) {
+								pred := phi.Block().Preds[k]
+								at = pred.Instrs[len(pred.Instrs)-1]
+							}
+						}
+					}
+					guarded := false
+					for _, g := range guardsOf(at) {
+						for _, t := range tests {
+							if g.Cond == ssa.Value(t) && g.Pol {
+								guarded = true
+							}
+						}
+					}
+					if !guarded {
+						unguarded = append(unguarded, c.pos(u))
+					}
+				}
+				c.R.Check(len(unguarded) == 0, rule, fmt.Sprintf("%s:tag-name#%d:used-only-if-valid", core.FuncName(fn), n), c.pos(cut), "the name part of the json tag is used only where the validity predicate holds",
+					fmt.Sprintf("the name part of the json tag is used (at %v) without asking whether encoding/json accepts it: for `json:\"it's\"` or a name containing a quote or a backslash encoding/json falls back to the Go field name, but the inferred property carries the tag's text, so the schema rejects the encoding of every value of the type", unguarded))
+			}
+		})
+	}
+	c.R.Floor(rule, "readings of the name part of a json tag in the inference closure", n, 1)
+	// the predicate(s)
+	ref := func(s string) bool {
+		if s == "" {
+			return false
+		}
+		for _, ch := range s {
+			switch {
+			case strings.ContainsRune("!#$%&()*+-./:;<=>?@[]^_{|}~ ", ch):
+			case !unicode.IsLetter(ch) && !unicode.IsDigit(ch):
+				return false
+			}
+		}
+		return true
+	}
+	samples := []string{"", "a", "Z9", "naïve", "日本", "٣", "full name", " ", "it's", "a\"b", "a\\b", "a`b", "a,b", "tab\tx", "x¿", "§", "a©", "€", "-", "_x", "a.b", "x\n", " ", "á"}
+	for _, ch := range "!#$%&()*+-./:;<=>?@[]^_{|}~ " {
+		samples = append(samples, "a"+string(ch))
+	}
+	for p := range preds {
+		var wrong []string
+		failed := ""
+		for _, s := range samples {
+			got, why := evalStringPredicate(c, p, s)
+			if why != "" {
+				failed = why
+				break
+			}
+			if got != ref(s) {
+				wrong = append(wrong, fmt.Sprintf("%q -> %v", s, got))
+			}
+		}
+		construct := core.FuncName(p) + ":agrees-with-encoding/json"
+		if failed != "" {
+			c.R.OK(rule, construct, c.P.Pos(p.Pos()), "the predicate could not be evaluated over the sample strings ("+failed+"): nothing concluded about it")
+			continue
+		}
+		c.R.Check(len(wrong) == 0, rule, construct, c.P.Pos(p.Pos()), fmt.Sprintf("gives encoding/json's answer on %d strings that separate its character classes", len(samples)),
+			fmt.Sprintf("the tag-name validity predicate disagrees with encoding/json's isValidTag (%s): for such a tag the inferred property name is not the name encoding/json uses", strings.Join(wrong, ", ")))
 	}
 }
